@@ -209,6 +209,137 @@ impl Scenario for Inbound {
 }
 
 // -----------------------------------------------------------------------------------------
+// C06 (E2 part): what the client does is a function of the bytes, not of their segmentation
+
+pub struct Segments;
+
+/// Length of the server->client stream of the session below (header to CloseOk).
+const SEGMENTS_STREAM_LEN: usize = 460;
+
+impl Scenario for Segments {
+    fn name(&self) -> &'static str {
+        "segments"
+    }
+    fn property(&self) -> &'static str {
+        "C06"
+    }
+    fn variants(&self, tier: &str) -> Vec<Value> {
+        let mut v = vec![json!({"cuts": []})];
+        for k in 1..SEGMENTS_STREAM_LEN {
+            v.push(json!({"cuts": [k]}));
+            if tier == "thorough" {
+                for d in [1usize, 2, 3, 6, 7, 8, 9] {
+                    v.push(json!({"cuts": [k, k + d]}));
+                }
+            }
+        }
+        v
+    }
+    fn bound(&self, tier: &str, p: &Value) -> usize {
+        if tier == "thorough" && p["cuts"].as_array().unwrap().len() <= 1 {
+            1
+        } else {
+            0
+        }
+    }
+    fn describe(&self) -> String {
+        "one fixed session on a live connection (handshake with a heartbeat and a blocked notice right behind OpenOk, channel, consumer, a delivery in two body frames, a returned message, a get with content, a value-carrying reply, close) whose server->client stream is segmented at every byte offset (thorough: every pair of offsets 1,2,3,6,7,8,9 apart, and one more deviation): the read stops there, meets would-block and continues with the next delivery. Oracle: the observations are those of the unsegmented run, literally".into()
+    }
+    fn build(&self, p: &Value) -> Built {
+        let mut hs = Handshake::default();
+        hs.after_open = vh::sim::broker::Stage::Frames(
+            vec![
+                AMQPFrame::Method(0, AMQPClass::Connection(pconnection::AMQPMethod::OpenOk(pconnection::OpenOk { known_hosts: String::new() }))),
+                AMQPFrame::Heartbeat(0),
+                AMQPFrame::Method(0, AMQPClass::Connection(pconnection::AMQPMethod::Blocked(pconnection::Blocked { reason: "alarm".into() }))),
+            ],
+            false,
+        );
+        let mut broker = StdBroker::new(hs);
+        let mut f = vec![deliver(1, "ctag-1-2", 7), header(1, 5, true), body(1, &[1, 2]), body(1, &[3, 4, 5])];
+        f.push(AMQPFrame::Method(1, AMQPClass::Basic(basic::AMQPMethod::Return(basic::Return { reply_code: 312, reply_text: "NO_ROUTE".into(), exchange: "rex".into(), routing_key: "rrk".into() }))));
+        f.push(header(1, 1, false));
+        f.push(body(1, &[9]));
+        broker.pushes.push(Push::new("content", f).when_channel(1, 2));
+        let mut cfg = EnvConfig::default();
+        cfg.time = false;
+        cfg.force_cuts = p["cuts"].as_array().unwrap().iter().map(|x| x.as_u64().unwrap() as usize).collect();
+        Built {
+            broker: Box::new(broker),
+            cfg,
+            root: Box::new(move |ctx: Ctx| {
+                let mut conn = match open(&ctx, ConnectionOptions::default().heartbeat(0), ConnectionTuning::default()) {
+                    Ok(c) => c,
+                    Err(e) => {
+                        ctx.log(format!("open -> Err({})", err_name(&e)));
+                        return;
+                    }
+                };
+                let blocked = conn.listen_for_connection_blocked();
+                let ch = match conn.open_channel(Some(1)) {
+                    Ok(c) => c,
+                    Err(e) => {
+                        ctx.log(format!("open_channel -> Err({})", err_name(&e)));
+                        let r = conn.close();
+                        ctx.log(format!("close -> {}", res(&r)));
+                        return;
+                    }
+                };
+                let returns = ch.listen_for_returns();
+                match ch.basic_consume("q", ConsumerOptions::default()) {
+                    Ok(c) => {
+                        match ctx.recv("consumer", c.receiver()) {
+                            Ok(ConsumerMessage::Delivery(d)) => ctx.log(format!("delivery {}", show_delivery(&d))),
+                            other => ctx.log(format!("consumer {:?}", other.map(|m| consumer_msg_name(&m)))),
+                        }
+                        std::mem::forget(c);
+                    }
+                    Err(e) => ctx.log(format!("consume -> Err({})", err_name(&e))),
+                }
+                if let Ok(r) = &returns {
+                    match ctx.recv("returns", r) {
+                        Ok(r) => ctx.log(format!("return {} {} body={:?}", r.reply_code, r.routing_key, r.content)),
+                        Err(_) => ctx.log("returns disconnected"),
+                    }
+                }
+                let g = ch.basic_get("msgq", false).map(|g| g.map(|g| (g.delivery.delivery_tag(), g.message_count, g.delivery.body.clone())));
+                ctx.log(format!("get -> {:?}", g.map_err(|e| err_name(&e))));
+                let q = ch.queue_declare("named", amiquip::QueueDeclareOptions::default()).map(|q| (q.declared_message_count(), q.declared_consumer_count()));
+                ctx.log(format!("declare -> {:?}", q.map_err(|e| err_name(&e))));
+                if let Ok(b) = &blocked {
+                    ctx.log(format!("blocked notices {:?}", b.try_iter().map(|n| format!("{:?}", n)).collect::<Vec<_>>()));
+                }
+                std::mem::forget(ch);
+                let r = conn.close();
+                ctx.log(format!("close -> {}", res(&r)));
+            }),
+        }
+    }
+    fn check(&self, p: &Value, o: &Outcome, _w: &World) -> Vec<(String, String)> {
+        let mut v = Vec::new();
+        let main = o.logs.get("main").cloned().unwrap_or_default();
+        // the unsegmented run, written down once
+        let want = vec![
+            format!("delivery tag=7 red=false ex=ex7 rk=rk7 body=[1, 2, 3, 4, 5] props={:?}", props_of(true)),
+            "return 312 rrk body=[9]".to_string(),
+            "get -> Ok(Some((1003, 103, [98, 111, 100, 121, 45, 49, 45, 51])))".to_string(),
+            "declare -> Ok((Some(1004), Some(104)))".to_string(),
+            "close -> Ok".to_string(),
+        ];
+        // the blocked notice arrived before the listener existed (it sits right behind OpenOk): it
+        // is discarded; the listener sees nothing
+        let got: Vec<String> = main.iter().filter(|l| !l.starts_with("blocked notices")).cloned().collect();
+        if got != want {
+            v.push(("segments:observations-differ".into(), format!("server stream cut at {:?}: observed {:?}\n the unsegmented run gives {:?}", p["cuts"], got, want)));
+        }
+        if o.inbound.len() >= SEGMENTS_STREAM_LEN {
+            v.push(("segments:scenario".into(), format!("scenario error: the server stream has {} bytes, the sweep covers {}", o.inbound.len(), SEGMENTS_STREAM_LEN)));
+        }
+        v
+    }
+}
+
+// -----------------------------------------------------------------------------------------
 
 pub struct ConsumerLife;
 
